@@ -934,6 +934,10 @@ def main(argv):
             text += "\n" + gen_tables_map.section(repo, sys.modules[__name__])
         except Unrecognised as e:
             print("gen_tables: binning / generator / partition / extrema families, shape not recognised: %s" % (e,)); return 2
+        import gen_tables_drv          # the rolling drivers (tools/gen_tables_drv.py; conformance: coq/Proofs/SrcTablesDrv.v)
+        try: text += "\n".join(gen_tables_drv.section(repo, Unrecognised))
+        except Unrecognised as e:
+            print("gen_tables: rolling drivers, shape not recognised: %s" % (e,)); return 2
     except Unrecognised as e:
         print("gen_tables: rolling family, shape not recognised: %s" % (e,)); return 2
     except (OSError, ValueError, KeyError) as e:
